@@ -274,8 +274,26 @@ func GenSemantic(r *hx.Rand, module string) *Bundle {
 			}
 			// services
 			for k, n := 0, r.Intn(2); k < n; k++ {
+				// every other service has a second level: service -> Sub -> Sub2 (call chains of three)
+				var sub2p *genDef
+				if r.Intn(2) == 0 {
+					sub2 := Def{Kind: "subservice", Name: g.name("Leaf")}
+					sub2.Methods = append(sub2.Methods, g.method("leaf", vis(), id, aliases, nil))
+					if r.Intn(2) == 0 {
+						sub2.Methods = append(sub2.Methods, g.method("second", vis(), id, aliases, nil))
+					}
+					f.Defs = append(f.Defs, sub2)
+					local = append(local, genDef{id, "subservice", sub2.Name})
+					sub2p = &genDef{id, "subservice", sub2.Name}
+				}
 				sub := Def{Kind: "subservice", Name: g.name("Sub")}
 				sub.Methods = append(sub.Methods, g.method("get", vis(), id, aliases, nil))
+				if sub2p != nil {
+					sub.Methods = append(sub.Methods, g.method("deeper", vis(), id, aliases, sub2p))
+					if r.Intn(2) == 0 {
+						sub.Methods = append(sub.Methods, g.method("put", vis(), id, aliases, nil))
+					}
+				}
 				f.Defs = append(f.Defs, sub)
 				local = append(local, genDef{id, "subservice", sub.Name})
 				svc := Def{Kind: "service", Name: g.name("Svc")}
